@@ -627,6 +627,11 @@ func (p *G1Affine) setBytes(buf []byte, subGroupCheck bool) (int, error) {
 		return 0, errors.New("invalid compressed coordinate: square root doesn't exist")
 	}
 
+	if Y.IsZero() && mData == mCompressedLargest {
+		// Y = -Y = 0 has a single encoding: the one flagged smallest
+		return 0, errors.New("invalid compressed coordinate: zero Y coordinate flagged as largest")
+	}
+
 	if Y.LexicographicallyLargest() {
 		// Y ">" -Y
 		if mData == mCompressedSmallest {
@@ -666,6 +671,11 @@ func (p *G1Affine) unsafeComputeY(subGroupCheck bool) error {
 
 	if Y.Sqrt(&YSquared) == nil {
 		return errors.New("invalid compressed coordinate: square root doesn't exist")
+	}
+
+	if Y.IsZero() && mData == mCompressedLargest {
+		// Y = -Y = 0 has a single encoding: the one flagged smallest
+		return errors.New("invalid compressed coordinate: zero Y coordinate flagged as largest")
 	}
 
 	if Y.LexicographicallyLargest() {
